@@ -55,7 +55,10 @@ LineProbe == [Base EXCEPT !.gen = "line"]
 UpsFor ==
     IF Len(path) < 2 THEN {<<0, 1, 0>>}
     ELSE IF HasRepeat(LineProbe) \/ HasReversal(LineProbe)
-    THEN {u \in AxisUnits : \A k \in 1..(Len(path) - 1) : Seg(LineProbe, k) = Zero3 \/ Cross(u, Seg(LineProbe, k)) # Zero3}
+    THEN {u \in AxisUnits :
+            /\ \A k \in 1..(Len(path) - 1) : Seg(LineProbe, k) = Zero3 \/ Cross(u, Seg(LineProbe, k)) # Zero3
+            \* a path that never moves gets the default direction +Y
+            /\ ((\A k \in 1..(Len(path) - 1) : Seg(LineProbe, k) = Zero3) => u[2] = 0)}
     ELSE {u \in AxisUnits : \A k \in 0..(Len(path) - 1) : Cross(u, RingDir(LineProbe, k)) # Zero3}
 LineCases ==
     {[Base EXCEPT !.gen = "line", !.up = u, !.rad = w, !.h = hh] : u \in UpsFor, w \in LineWidths, hh \in {0, 1}}
